@@ -152,8 +152,8 @@ func (c *TCPConn) receiveRawProd() ([]byte, error) {
 		return nil, xerrors.Errorf("buffer read: %w", handleError(err))
 	}
 	if total > MaxPacketSize {
-		return nil, xerrors.Errorf("%v sends too big packet: %v>%v",
-			c.conn.RemoteAddr().String(), total, MaxPacketSize)
+		return nil, xerrors.Errorf("%v sends too big packet: %v>%v: %w",
+			c.conn.RemoteAddr().String(), total, MaxPacketSize, ErrTooBig)
 	}
 
 	b := make([]byte, total)
